@@ -591,9 +591,11 @@ func (b *RefinementBuilder) NewValue() (ret Value) {
 		}
 	}
 
+	// The result gets its own copy of the refinement so that further calls
+	// on this builder cannot change a value that was already returned.
 	return Value{
 		ty: b.orig.ty,
-		v:  &unknownType{refinement: b.wip},
+		v:  &unknownType{refinement: b.wip.copy()},
 	}
 }
 
